@@ -22,12 +22,13 @@ Proof. exact check_complete. Qed.
 
 (* at the table regenerated from the Go source: every two access sites of the same
    registry, one writing, neither init-only, share a lock (exclusive on the writing
-   side) or are both synchronised objects - except the listed finding pairs *)
+   side) or are both synchronised objects - except the listed finding pairs that still reproduce
+   (ls_live: a stale listing entry exempts nothing) *)
 Theorem C20_lockset :
   forall a1 a2, In a1 ls_table -> In a2 ls_table ->
     (a_var a1 = a_var a2 /\ (is_write a1 = true \/ is_write a2 = true)
      /\ a_init a1 = false /\ a_init a2 = false) ->
-    ~ exempt ls_listed a1 a2 ->
+    ~ exempt ls_live a1 a2 ->
     (exists l, guard_ok a1 l /\ guard_ok a2 l) \/ (a_mode a1 = Synced /\ a_mode a2 = Synced).
 Proof. exact lockset_at_table. Qed.
 
@@ -38,15 +39,16 @@ Theorem C20_table_wf :
   /\ ls_table <> [].
 Proof. exact table_wf_facts. Qed.
 
-(* each listed finding pair really breaks the discipline (a stale entry fails here) *)
+(* each exempted pair really breaks the discipline (stale entries of the listing are dropped from
+   ls_live and reported by the driver as STALE-FINDING) *)
 Theorem C20_listed_findings_refuted :
-  forall v f1 f2, In (v, f1, f2) ls_listed ->
+  forall v f1 f2, In (v, f1, f2) ls_live ->
   exists a1 a2, In a1 ls_table /\ In a2 ls_table /\ a_var a1 = v /\ a_func a1 = f1 /\ a_func a2 = f2
                 /\ conflicting a1 a2 /\ ~ protected a1 a2.
 Proof. exact listed_findings_refuted. Qed.
 
 Example C20_lockset_nonvacuous :
-  exists a1 a2, In a1 ls_table /\ In a2 ls_table /\ conflicting a1 a2 /\ ~ exempt ls_listed a1 a2.
+  exists a1 a2, In a1 ls_table /\ In a2 ls_table /\ conflicting a1 a2 /\ ~ exempt ls_live a1 a2.
 Proof. exact lockset_nonvacuous. Qed.
 
 (* mutex semantics: in every reachable state of the lock machine two different threads
@@ -103,7 +105,7 @@ Proof. exact refresh_pinned_leaks. Qed.
 (* source tie of the accounting: every `Conn(ctx)` taken in the data-source packages is
    closed by the function that took it, except in the listed functions *)
 Theorem C20_brackets :
-  forall f v c, In (f, v, c) ls_brackets -> ~ In f ls_leak_listed -> c = true.
+  forall f v c, In (f, v, c) ls_brackets -> ~ In f ls_leak_live -> c = true.
 Proof. exact brackets_at_table. Qed.
 
 (* no re-entrant locking (sync.Mutex / RWMutex / Once are not re-entrant): the checker is sound
